@@ -70,7 +70,12 @@ fn gen_file(r: &mut Rng, syn_values: bool) -> String {
     t.push_str("attribute kw = x => k = x, w = x, tag = \"via-shorthand\"\nattribute wk = y => w = y, k = y\n");
     t.push_str("(module) @m {\n  let _u = @m\n");
     for _ in 0..r.range(1, 5) {
-        match r.below(9) {
+        match r.below(12) {
+            // an attribute on an edge that this call does not create: it is there only if the graph had it already, else the call
+            // fails with UndefinedEdge and no OTHER edge of the node is touched
+            9 => t.push_str(&format!("  attr (ga -> gb) {} = {}\n", r.pick(&keys), r.pick(&vals))),
+            10 => t.push_str(&format!("  attr (gb -> ga) {} = {}\n", r.pick(&keys), r.pick(&vals))),
+            11 => t.push_str(&format!("  node fresh\n  edge ga -> fresh\n  attr (ga -> gb) {} = {}\n", r.pick(&keys), r.pick(&vals))),
             7 => t.push_str(&format!("  attr (ga) {} = {}\n", r.pick(&["kw", "wk"]), r.pick(&vals))),
             8 => t.push_str(&format!("  edge ga -> gb\n  attr (ga -> gb) {} = {}\n", r.pick(&["kw", "wk"]), r.pick(&vals))),
             0 => t.push_str("  edge ga -> gb\n"),
@@ -183,6 +188,7 @@ pub fn run(rep: &mut Report, tier: &str, seed: u64) {
             history.push(json!({"call": ci, "mode": mode, "tsg": text, "ga": ga, "gb": gb, "before": before.pretty(), "outcome": class}));
             let replay = json!({"source": source.src, "history": history, "implementation": impl_as_result(&ir).pretty(), "model": model.pretty()});
             match result_parts(&model) {
+                None if model.as_atom() == Some("model-too-slow") => rep.count("model-comparison-given-up:time-budget"),
                 None => rep.fail("disagreement", &format!("C09 {} model did not return a result: {}", mode, model.to_text().chars().take(80).collect::<String>()), false, replay.clone()),
                 Some((mo, mg, _)) => {
                     let mclass = outcome_class(mo);
